@@ -3,34 +3,67 @@ SPEC = {
     'harness': 'hC26',
     'coq_dir': 'C26',
     'claimed': True,
-    'theorems': ['C26_sequence_gapfree', 'C26_sequence_no_reuse', 'C26_replay_is_best_chain'],
+    'theorems': ['C26_sequence_gapfree', 'C26_sequence_no_reuse', 'C26_replay_is_best_chain', 'C26_nonvacuous',
+                 'C26_kv_refines_log', 'C26_kv_refines_log_run', 'C26_best_chain_no_repeat',
+                 'C26_seq_by_hash_names_latest_add', 'C26_seq_by_hash_on_best_chain', 'C26_seq_by_hash_off_chain_iff',
+                 'C26_index_entry_monotone', 'C26_index_oracle_holds', 'C26_range_query_is_log_segment',
+                 'C26_main_queries_alias', 'C26_no_recording_no_log', 'C26_readd_nonvacuous',
+                 'C26_para_own_log', 'C26_para_norec_no_own_log', 'C26_para_main_seq_replay_refuted',
+                 'C26_para_main_seq_replay_partial', 'C26_para_nonvacuous'],
     'allowed_axioms': [],
-    'shard': 16,
-    'rule': 'same generator as C25 (harness hC25 with --extra c26): a factory test node builds executed block trees '
-            '(trunk 8-18 blocks, 3-5 side branches, fork points below and above the 12-block margin, 4 Difficulty '
-            'values); every order (creation, reverse, by height, shuffles, shuffles with duplicates, local swaps, '
-            'orders with blocks missing; plus all orders of the off-trunk blocks of one small tree) is delivered to a '
-            'fresh node (memdb, every 6th leveldb) through ProcessBlock; the sequence log is read back with '
-            'LoadBlockLastSequence / GetBlockSequence(0..last). non-trivial = the run contains an orphan or a '
-            'reorganisation; distinct = distinct Gallina case terms',
+    'shard': 20,
+    'rule': 'harness hC26. Streams tree/exhaustive (the generator of hC25, unchanged: a factory test node builds executed '
+            'block trees (trunk 8-18 blocks, 3-5 side branches, fork points below and above the 12-block margin, 4 '
+            'Difficulty values); every order (creation, reverse, by height, shuffles, shuffles with duplicates, local '
+            'swaps, orders with blocks missing; plus all orders of the off-trunk blocks of one small tree) is delivered '
+            'to a fresh node (memdb, every 6th leveldb) through ProcessBlock); stream flip (two branches from a common '
+            'prefix extended in turns, 2-4 reorganisations X -> Y -> X ..., blocks leave the best chain and come back; '
+            'kinds ending in +readd have a hash with more than one add record); stream norec (same histories with '
+            'isRecordBlockSequence=false). Read back: after every delivery tip, total difficulty, '
+            'LoadBlockLastSequence, GetSequenceByHash(delivered block); at the end hash at every height, '
+            'GetBlockSequence(0..last), ProcGetSeqByHash / ProcGetMainSeqByHash for every block of the tree, a hash of '
+            'no block and the empty hash, LoadBlockLastMainSequence, GetBlockSequences for 7 ranges (edges at 0, last, '
+            'the 1000 limit, negative starts, int64 wrap, random pairs), ProcDelParaChainBlockMsg(tip / block below / '
+            'genesis, pid self). Stream para: para-chain test nodes (Title user.p.b., isParaChain, with and without '
+            'isRecordBlockSequence) driven by ProcAddParaChainBlockMsg / ProcDelParaChainBlockMsg (pid self) over a '
+            'small executed tree: add a child of the tip, delete the tip, refused operations (parent not the tip, '
+            'block not the tip, wrong height, no block); guarded = strictly increasing sequence numbers, unrestricted = '
+            'also repeated / lower numbers (incl. Rollback\'s choice), witness = the refutation witnesses; read back per '
+            'operation error class, tip, LoadBlockLastMainSequence, LoadBlockLastSequence, at the end '
+            'GetBlockByMainSequence over -3..max+2, own log, both by-hash queries for every block, ranges. '
+            'non-trivial = the run contains an orphan or a reorganisation (para: >= 3 executed and >= 1 refused '
+            'operation); distinct = distinct Gallina case terms',
     'trusted_base': [
         'C25.Model (block acceptance, fork choice, reorganisation) is the source of the connect/disconnect trace; '
         'its correspondence with process.go is checked per delivery in the same cases',
         'block execution/validity is an oracle (all generated blocks are valid)',
-        'the key-value store batch is atomic (sequence records are written in the block batch)',
+        'the key-value store batch is atomic (sequence records are written in the block batch); the database is '
+        'modelled as a last-write-wins map over the six sequence key families',
+        'block hashes are abstract identifiers (N); distinct blocks have distinct hashes',
+        'para chain: blocks reach the node only through its consensus module (pid "self"); blocks of height <= 0 and '
+        'the deletion of the genesis block are outside the model (error class 8, never generated)',
     ],
     'assumptions': [
-        'isRecordBlockSequence = true from height 0, not a para chain',
+        'sequence recording is on from height 0 (the start-up rule of saveBlockSequence / CheckSequenceStatus / '
+        'CreateSequences is not modelled); LastSequence + 1 does not overflow int64',
         'single-threaded deliveries (ProcessBlock holds chainLock)',
+        'BlockChain.Rollback is not driven (read only: it is the in-repository caller that re-uses a sequence number)',
     ],
     'manifest': {
-        'level_text': 'full: for every delivery history of the model the sequence numbers are 0..last without gap or '
-                      'reuse and the replay of the log is the best chain; the Go node agrees with the model on every '
-                      'generated history (per-delivery results, final chain, whole log)',
-        'level_note': 'model of ProcessBlock/connectBestChain/reorganizeChain and saveBlockSequence; block execution is '
-                      'an oracle; the DelBlock return value (-1, shadowed variable) only feeds the push notifier and is '
-                      'not part of this property',
-        'technique': 'Coq proof (invariant by induction over delivery histories) + in-kernel correspondence check',
+        'level_text': 'full for the node\'s own log (main chain and para chain): for every delivery history the '
+                      'sequence numbers are 0..last without gap or reuse, the replay of the log is the best chain, '
+                      'the hash index names the latest add record of a block (never removed; on the best chain iff no '
+                      'delete record follows; replay up to it puts the block on top of the current chain below it), '
+                      'GetBlockSequences returns log segments, no recording = no log; partial for the records a para '
+                      'chain keeps under the caller\'s sequence numbers (guard: numbers increase; refuted otherwise, '
+                      'known finding 1); the Go nodes agree with the model on every generated history (per-delivery '
+                      'results, final chain, whole log, index, range and main-sequence queries)',
+        'level_note': 'model of ProcessBlock/connectBestChain/reorganizeChain (C25) and of saveBlockSequence, the '
+                      'by-hash / by-sequence reads, GetBlockSequences, ProcGetSeqByHash, ProcGetMainSeqByHash, '
+                      'ProcAdd/DelParaChainBlockMsg at key level; block execution is an oracle; the DelBlock return '
+                      'value (-1, shadowed variable) only feeds the push notifier and is not part of this property',
+        'technique': 'Coq proof (invariants by induction over delivery histories / operation lists, strict-replay '
+                     'invariant of the connect/disconnect trace) + in-kernel correspondence check',
     },
     'harness_timeout': {'quick': 400, 'thorough': 3600},
 }
